@@ -259,7 +259,7 @@ class NumInterp(Interp):
             'sqrt': np.sqrt, 'exp': np.exp, 'kron': np.kron, 'cos': np.cos, 'sin': np.sin, 'conj': np.conj, 'pi': np.pi,
             'complex128': complex, 'complex64': complex, 'float64': float,
             'sort': np.sort, 'asarray': np.asarray, 'abs': np.abs, 'mod': np.mod, 'arange': np.arange, 'cumprod': np.cumprod, 'hstack': np.hstack,
-            'concatenate': np.concatenate, 'dot': np.dot, 'tan': np.tan, 'arccos': np.arccos, 'arcsin': np.arcsin, 'angle': np.angle, 'real': np.real, 'imag': np.imag,
+            'concatenate': np.concatenate, 'dot': np.dot, 'hypot': np.hypot, 'append': np.append, 'prod': np.prod, 'isclose': np.isclose, 'allclose': np.allclose, 'log': np.log, 'power': np.power, 'trace': np.trace, 'square': np.square, 'sum': np.sum, 'tan': np.tan, 'arccos': np.arccos, 'arcsin': np.arcsin, 'angle': np.angle, 'real': np.real, 'imag': np.imag,
         }
         import math as _math
         import cmath as _cmath
@@ -279,6 +279,11 @@ class NumInterp(Interp):
             if n.attr in self.npfuncs:
                 return self.npfuncs[n.attr]
             raise Unsupported(f'numpy.{n.attr} not in the whitelist')
+        if isinstance(n, ast.Attribute) and isinstance(n.value, ast.Attribute) and isinstance(n.value.value, ast.Name) and n.value.value.id in ('np', 'numpy') \
+                and n.value.attr == 'linalg' and n.value.value.id not in self.env:
+            if n.attr in ('eigvals', 'eigvalsh', 'eig', 'eigh', 'norm', 'det', 'inv', 'matrix_power'):
+                return getattr(self.np.linalg, n.attr)
+            raise Unsupported(f'numpy.linalg.{n.attr} not in the whitelist')
         if isinstance(n, ast.Attribute) and isinstance(n.value, ast.Name) and n.value.id in self.mathfuncs and n.value.id not in self.env:
             if n.attr in self.mathfuncs[n.value.id]:
                 return self.mathfuncs[n.value.id][n.attr]
@@ -349,7 +354,7 @@ class NumInterp(Interp):
                 if isinstance(recv, (str, list, tuple, dict)) and hasattr(recv, n.func.attr):
                     args = [self.ev(a) for a in n.args]
                     return getattr(recv, n.func.attr)(*args)
-            if isinstance(n.func, ast.Attribute) and n.func.attr == 'append':
+            if isinstance(n.func, ast.Attribute) and n.func.attr == 'append' and not (isinstance(n.func.value, ast.Name) and n.func.value.id in ('np', 'numpy')):
                 recv = self.ev(n.func.value)
                 if isinstance(recv, list):
                     recv.append(self.ev(n.args[0]))
